@@ -21,7 +21,7 @@ func init() {
 var tagLikeBits = []string{
 	"{{ x }}", "{{- x }}", "{{ x -}}", "{{- x -}}", "{% if a %}", "{%- if a -%}", "{% endif %}", "{% else %}", "{%- endfor -%}",
 	"{{ 1 | nofilter }}", "{{ | }}", "{% bogus %}", "{% assign q = 1 %}", "{%- assign q = 2 -%}", "{% for i in (1..3) %}", "{{", "}}", "{%", "%}",
-	" ", "  ", "\n", "\t", "a", "b c", "é", "😀", "-", "\"", "'", "{% comment %}", "{% raw %}", "{{ '}}' }}", "{% if %}", "{{ x | divided_by: 0 }}",
+	" ", "  ", "\n", "\t", "a", "b c", "é", "😀", "-", "\"", "'", "{% comment %}", "{% raw %}", "{% endcomment %}", "{% endraw %}", "{%- endcomment -%}", "{%-endraw-%}", "{{ '}}' }}", "{% if %}", "{{ x | divided_by: 0 }}",
 }
 
 func verbatimStream(r *Run) {
@@ -214,6 +214,11 @@ func verbatimUnclosedDelimiterFamily(r *Run, run func(src string, env map[string
 		{"{% comment %}", "{% if ", "endcomment", "comment-contributes-nothing"},
 		{"{%- raw -%}", "{{", "endraw", "raw-body-emitted-exactly"},
 		{"{% comment %}", "{{ | }} {% endraw %}{% raw %}{{", "endcomment", "comment-contributes-nothing"},
+		// the OTHER lexical block's end tag inside the body, then an opener that is not closed: the body ends at its own end tag
+		{"{% raw %}", "{% endcomment %}{{ ", "endraw", "raw-body-emitted-exactly"},
+		{"{% raw %}", "a{%- endcomment -%} {% x", "endraw", "raw-body-emitted-exactly"},
+		{"{% comment %}", "{% endraw %}{% if ", "endcomment", "comment-contributes-nothing"},
+		{"{% comment %}", "{{ x }}{%endraw%} {{", "endcomment", "comment-contributes-nothing"},
 	} {
 		src := "p" + c.open + c.body + "{% " + c.end + " %}q"
 		want := "pq"
